@@ -73,6 +73,8 @@ MUTANTS = [
 FILES = "util/files.go"
 
 MUTANTS += [
+    M("c02-r10-send-timeout-tolerated", "C02", "C02.R10", "output/fluentdforward/clientworker.go", "\tif err := writeAll(fconn.socket, chunk.Data); err != nil {\n\t\treturn fmt.Errorf(\"failed to send: %s, %w\", chunk.String(), err)", "\tif err := writeAll(fconn.socket, chunk.Data); err != nil && !os.IsTimeout(err) {\n\t\treturn fmt.Errorf(\"failed to send: %s, %w\", chunk.String(), err)", "a write timeout in the middle of a chunk: the partial chunk counts as sent and is queued for ACK", more=[("output/fluentdforward/clientworker.go", "import (\n", "import (\n\t\"os\"\n")]),
+    M("c02-r10-deadline-error-shadowed", "C02", "C02.R10", "output/fluentdforward/clientworker.go", "\tif err := fconn.socket.SetReadDeadline(deadline); err != nil {\n\t\treturn \"\", fmt.Errorf(\"failed to set read timeout: %w\", err)\n\t}\n", "\tvar err error\n\tif !deadline.IsZero() {\n\t\terr := fconn.socket.SetReadDeadline(deadline)\n\t\t_ = err\n\t}\n\tif err != nil {\n\t\treturn \"\", fmt.Errorf(\"failed to set read timeout: %w\", err)\n\t}\n", "SetReadDeadline failing on a closed socket: the read then blocks without a deadline"),
     # ---------------- C03
     M("c03-r1-no-drop-count", "C03", "C03.R1", BUF, "\tdefault:\n\t\tbuf.chunkMan.OnChunkDropped(chunk)\n", "\tdefault:\n", "queue of 500000 chunks full"),
     M("c03-r1-double-input", "C03", "C03.R1", BUF, "\t\tbuf.chunkMan.OnChunkInput(false)\n", "\t\tbuf.chunkMan.OnChunkInput(false)\n\t\tbuf.chunkMan.OnChunkInput(false)\n", "spill path (memory window half full)"),
@@ -271,6 +273,7 @@ MUTANTS += [
     M("c06-r6-lowercase-keys-for-id", "C06", "C06.R6", LCM, "\tgm.globalMutex.Lock()\n\tobj, found := gm.globalMap[mergedKey]\n", "\tfor i, k := range keys {\n\t\tkeys[i] = strings.ToLower(k)\n\t}\n\tgm.globalMutex.Lock()\n\tobj, found := gm.globalMap[mergedKey]\n", "key values differing only in case: routed to two pipelines, one tag and one queue directory", more=[(LCM, "import (\n\t\"strconv\"\n", "import (\n\t\"strconv\"\n\t\"strings\"\n")]),
     B("c06-r6-benign-read-only-loop", "C06", ORC, "\toutputTag := o.tagBuilder.Build(keys)\n", "\tfor i, key := range keys {\n\t\tif len(key) == 0 {\n\t\t\to.logger.Debugf(\"empty key value at %d\", i)\n\t\t}\n\t}\n\toutputTag := o.tagBuilder.Build(keys)\n"),
     M("c15-r6-memo-keyed-by-seconds", "C13", "C15.R6", "transform/tparsetime/tparsetime.go", "\terrorCounter  func(length int)\n}", "\terrorCounter  func(length int)\n\tlastValue     string\n\tlastTime      time.Time\n}", "two records with the same second but different fractions or zones: the second gets the first one's instant", more=[("transform/tparsetime/tparsetime.go", "\tvalue := tf.keyLocator.Get(record.Fields)\n\ttm, err := parseRFC3339Timestamp(value, tf.timezoneCache)\n", "\tvalue := tf.keyLocator.Get(record.Fields)\n\tif len(value) >= 19 && value[:19] == tf.lastValue {\n\t\trecord.Timestamp = tf.lastTime\n\t\treturn base.PASS\n\t}\n\ttm, err := parseRFC3339Timestamp(value, tf.timezoneCache)\n\tif err == nil {\n\t\ttf.lastValue, tf.lastTime = strings.Clone(value[:19]), tm\n\t}\n"), ("transform/tparsetime/tparsetime.go", "import (\n\t\"fmt\"\n", "import (\n\t\"fmt\"\n\t\"strings\"\n")]),
+    M("c13-r5-offset-by-hand", "C13", "C13.R5", RFC, "\t\t\ttzName, tzOffset := z.Zone()\n", "\t\t\ttzName, tzOffset := z.Zone()\n\t\t\tif len(tzStr) == 6 && tzStr[0] == '-' {\n\t\t\t\ttzOffset = -(int(tzStr[1]-'0')*10+int(tzStr[2]-'0'))*3600 + (int(tzStr[4]-'0')*10+int(tzStr[5]-'0'))*60\n\t\t\t}\n", "negative offsets with non-zero minutes (-03:30): the sign is applied to the hours only"),
     M("c12-r5-revert-rewriter-flag", "C12", "C10.R4", RUNESC, "\t// The record must not be marked as unescaped here: only the output is unescaped, not the field in the record,\n\t// which is to be serialized again for other outputs\n", "\trecord.Unescaped = true\n", "two outputs with an unescape rewriter: original defect D24"),
 ]
 
